@@ -799,6 +799,10 @@ func (t *fnTrans) havocLoc(loc string, env *specEnv, pre *State) {
 		case locField, locCell:
 			inner := strings.TrimSuffix(strings.TrimPrefix(hs, "(Array Int "), ")")
 			fv := t.freshConst("hv", inner)
+			if fr, ok := t.eng.cs.FieldRange[hn]; ok && inner == "Int" {
+				// the assumed value range of this field (fieldrange) also holds for the value a callee leaves in it
+				t.assumeRaw(and(le(fr[0], fv), le(fv, fr[1])))
+			}
 			t.heapSet(t.st, hn, hs, sto(old, l.ref, fv))
 		case locMap:
 			inner := strings.TrimSuffix(strings.TrimPrefix(hs, "(Array Int "), ")")
